@@ -43,7 +43,7 @@ def gen_cases(tier, seed):
         rng = Rng(derive(seed, PROP, "same_name", i))
         yield {"prop": PROP, "id": "s%d" % i, "batch": "same_name_classes", "second": "Box", "a": rng.range(1, 9), "b": rng.range(10, 19),
                "seed": rng.hexbytes(16), "gc": None if i == 0 else "%d:1000000" % i}
-    total = 3000 if tier == "quick" else 40000
+    total = 2600 if tier == "quick" else 40000
     for i in range(total):
         rng = Rng(derive(seed, PROP, "hist", i))
         g = gens.generate(rng, family="classes")
